@@ -1,2 +1,7 @@
 import Pxv.Model.Body
 import Pxv.Thm.C14
+import Pxv.Model.CallGraph
+import Pxv.Model.Order
+import Pxv.Lemmas.Order
+import Pxv.Thm.C01
+import Pxv.Thm.C02
